@@ -1146,8 +1146,12 @@ func (g *Gen) famDidAdv() {
 	case 30, 31: // a very large document (nothing limits the size of a service endpoint): sizes around 4 KiB, 16 KiB, 32 KiB, 64 KiB
 		doc := g.didDoc(did, []int{k}, 0)
 		base := []int{4096, 16384, 32768, 65536, 65536, 65536}[r.Intn(6)]
-		size := base - 120 + r.Intn(130)
-		doc.Services = []SvcSpec{{Id: "big", Type: "Blob", Endpoint: "https://e.example/" + strings.Repeat("p", size)}}
+		doc.Services = []SvcSpec{{Id: "big", Type: "Blob", Endpoint: "https://e.example/"}}
+		// pad so that the encoded document ends up within a few dozen bytes of the power of two, on either side
+		want := base - 40 + r.Intn(56)
+		if have := g.env.BuildDoc(doc).Size(); want > have+4 {
+			doc.Services[0].Endpoint += strings.Repeat("p", want-have-3)
+		}
 		id := g.emit(&TxSpec{Gas: 30_000_000, Msgs: []MsgSpec{{T: "did.Update", F: map[string]string{"did": did, "from": from}, Doc: doc, Proof: &ProofSpec{Key: k, MethodID: mid, Seq: "cur"}}}})
 		g.didTx = append(g.didTx, didRef{id, did})
 		// the same message again, and another update over the sequence the first one was made over
